@@ -52,6 +52,7 @@ inductive Stmt
   | ses (s : Session)
   | get | dropKey | forgetKey
   | dbg (c : Nat) | isPoisoned (c : Nat) | clearPoison (c : Nat)
+  | tryNew (kind : Nat) (s : Shape)      -- `try_new` of a boxed (0) / ref (1) / retrying (2) collection over `s`
   deriving Repr, Inhabited
 
 /-- static context of a program: the world and the table of collections -/
@@ -280,6 +281,10 @@ def stmt (C : Ctx) (s : Stmt) (u : UserSt) : Prog Unit UserSt :=
     match isPoisonableTop (C.shape c) with
     | some p => op (.poisonClear p) fun _ => op (.mark mkOutOk) fun _ => done u
     | none => op (.mark mkOutNoKey) fun _ => done u
+  | .tryNew kind s =>
+    -- no lock operation at all: the constructors only compare addresses
+    let accepted := if kind = 2 then tryNewRetry C.W s else tryNewSorted C.W s
+    op (.mark (if accepted then mkOutOk else mkOutWouldBlock)) fun _ => done u
 
 def program (C : Ctx) : List Stmt → UserSt → Prog Unit UserSt
   | [], u => done u
